@@ -180,7 +180,7 @@ func c07TreeGen(tier Tier) TreeGen {
 		Kinds: stackKinds,
 		Leaf:  func(t *rapid.T) Val { return genPrimVal(t, true, false) },
 		Conds: true, CondExprStack: true, CondExprCond: true, NotAsCondExpr: true,
-		IndexOpts: true, Wraps: true, NilLeaves: true, EmptyStacks: true, Caps: true, FIFOOpt: true, Options: true, ZooLeaves: true, Ambient: true, WideRuns: true, NoNestAfter: true, ReadOnlyNodes: true,
+		IndexOpts: true, Wraps: true, NilLeaves: true, EmptyStacks: true, Caps: true, FIFOOpt: true, Options: true, ZooLeaves: true, DeepChains: true, Ambient: true, WideRuns: true, NoNestAfter: true, ReadOnlyNodes: true,
 	}
 	if tier.Thorough {
 		g.MaxWidth, g.Budget = 5, 45
@@ -255,7 +255,33 @@ func genC07(t *rapid.T, tier Tier) C07Case {
 		c.Paths = append(c.Paths, p)
 	}
 	c.AllPaths = c.Root.Count() <= 14 && rapid.IntRange(0, 3).Draw(t, "allpaths") == 0
+	// the longest descendable route of the tree, its long prefixes, and the same with a trailing index
+	// (paths are not bounded by any small number of indices)
+	if dp := deepestPath(c.Root); len(dp) >= 7 {
+		for l := 7; l <= len(dp); l++ {
+			c.Paths = append(c.Paths, append([]int{}, dp[:l]...))
+		}
+		c.Paths = append(c.Paths, append(append([]int{}, dp...), 0), append(append([]int{}, dp...), 0, 0))
+	}
 	return c
+}
+
+// deepestPath: indices of the longest route through stacks and Conditions holding a stack, ending at a leaf.
+func deepestPath(n Node) []int {
+	var best []int
+	for i, e := range n.Elems {
+		var sub []int
+		switch {
+		case e.IsStack():
+			sub = deepestPath(e)
+		case e.IsCond() && e.Expr != nil && e.Expr.IsStack():
+			sub = deepestPath(*e.Expr)
+		}
+		if cand := append([]int{i}, sub...); len(cand) > len(best) {
+			best = cand
+		}
+	}
+	return best
 }
 
 func init() {
